@@ -281,3 +281,44 @@ Proof.
       * inversion H; subst. right. right. exists er. auto.
       * exfalso. eapply qnames_to_try_no_internal; eauto.
 Qed.
+
+(* the general cache hit: earlier candidates have a cached NXDOMAIN (and no cached answer), the next
+   one has an unexpired cached answer: it is returned without any query *)
+Lemma next_request_cache_hit : forall c now a q rest pre s,
+  c_cache c = true ->
+  (forall p, In p pre ->
+     cache_get (s_cache s) {| k_name := p; k_type := c_rdtype c; k_class := c_rdclass c |} now = None /\
+     exists a', cache_get (s_cache s) {| k_name := p; k_type := tANY; k_class := c_rdclass c |} now = Some a' /\
+                a_rcode a' = rcNXDOMAIN) ->
+  cache_get (s_cache s) {| k_name := q; k_type := c_rdtype c; k_class := c_rdclass c |} now = Some a ->
+  exists s', s_cache s' = s_cache s /\
+    next_request c s (pre ++ q :: rest) now =
+      (if (match a_rrset a with None => true | Some _ => false end) && c_raise c then NNoAnswer s' a else NAnswer s' a).
+Proof.
+  intros c now a q rest. induction pre as [|p pre IH]; intros s HC HP HG; simpl.
+  - rewrite HC. simpl. rewrite HG.
+    destruct ((match a_rrset a with None => true | Some _ => false end) && c_raise c); exists (with_qname s q rest); split; reflexivity.
+  - rewrite HC. simpl. destruct (HP p (or_introl eq_refl)) as (G1 & a' & G2 & G3).
+    rewrite G1, G2, G3. simpl.
+    destruct (IH (with_nx (with_qname s p (pre ++ q :: rest)) (nx_set (s_nx s) p (a_src a'))) HC) as (s' & E1 & E2).
+    + intros p0 Hp0. simpl. apply HP. right. exact Hp0.
+    + simpl. exact HG.
+    + exists s'. split; [exact E1|exact E2].
+Qed.
+
+Theorem cache_hit_general_resolve : forall sc c ch fuel e pre q rest a,
+  c_qnames c = pre ++ q :: rest -> c_cache c = true ->
+  (forall p, In p pre ->
+     cache_get ch {| k_name := p; k_type := c_rdtype c; k_class := c_rdclass c |} (e_clock e) = None /\
+     exists a', cache_get ch {| k_name := p; k_type := tANY; k_class := c_rdclass c |} (e_clock e) = Some a' /\
+                a_rcode a' = rcNXDOMAIN) ->
+  cache_get ch {| k_name := q; k_type := c_rdtype c; k_class := c_rdclass c |} (e_clock e) = Some a ->
+  exists s', resolve_with fuel sc c ch e =
+    ((if (match a_rrset a with None => true | Some _ => false end) && c_raise c then FNoAnswer a else FAnswer a), s', e)
+    /\ s_cache s' = ch.
+Proof.
+  intros sc c ch fuel e pre q rest a HQ HC HP HG. unfold resolve_with. rewrite HQ.
+  destruct (next_request_cache_hit c (e_clock e) a q rest pre (init_st c ch) HC HP HG) as (s' & E1 & E2).
+  rewrite E2. simpl in E1.
+  destruct ((match a_rrset a with None => true | Some _ => false end) && c_raise c); simpl; exists s'; auto.
+Qed.
